@@ -448,7 +448,7 @@ func damageCase(goit string, c *Chunk, snap map[string][]byte, tz int, good M, g
 		os.WriteFile(filepath.Join(d, m.rel), m.data, 0o666)
 	}
 	dr := runnerAt(goit, d, c.T, tz)
-	dr.Timeout = 5e9
+	dr.Timeout = 15e9
 	st := c.T.Project(dr.Root, dr.Home)
 	results := M{}
 	run := func(name string, args ...string) ExecResult {
